@@ -151,7 +151,7 @@ def main():
         ],
         "checks": checks,
         "not_applicable": na,
-        "notes": "Driver: /verif/check <id> <tier>. Known findings: /verif/known_findings.json. Design: /verif/DESIGN.md (section 10: as built, findings, false alarms corrected, which check catches which of the seeded changes under /verif/seeded). Extensions beyond the listed properties (not in `checks`): ./check X01 (Datalink.tla: link-layer framing), ./check X02 (Tables.tla: flow tables at and beyond capacity), ./check X03 (Pool.tla life cycle: shutdown drains what was queued; TV_PoolLife validates real shutdowns). Helpers: lib/run_all.sh <tier>, lib/seeded_all.sh, lib/seeded.sh <seed> <check>, lib/confirm_seed.sh.",
+        "notes": "Driver: /verif/check <id> <tier>. Known findings: /verif/known_findings.json. Design: /verif/DESIGN.md (section 10: as built, findings, false alarms corrected, which check catches which of the seeded changes under /verif/seeded). Extensions beyond the listed properties (not in `checks`): ./check X01 (Datalink.tla: link-layer framing), ./check X02 (Tables.tla: flow tables at and beyond capacity), ./check X03 (Pool.tla life cycle: shutdown drains what was queued; TV_PoolLife validates real shutdowns), ./check X04 (Capture.tla: the capture-file front end returns on every file and delivers the readable prefix). Helpers: lib/run_all.sh <tier>, lib/seeded_all.sh, lib/seeded.sh <seed> <check>, lib/confirm_seed.sh.",
     }
     json.dump(m, open(os.path.join(ROOT, "MANIFEST.json"), "w"), indent=1)
 
